@@ -1,5 +1,6 @@
 import AdaptixModel.Protocol
 import AdaptixModel.Types.Normalize
+import AdaptixModel.Types.HintVars
 
 /-!
   JSON ops of the C15 model.
@@ -8,6 +9,9 @@ import AdaptixModel.Types.Normalize
            {"op": "tv_limit",  "env": ENV, "hint": HINT(tv)}      -> {"constraints": bool, "values": [NORM]}
            {"op": "lit_key",   "env": ENV, "v": LIT}              -> {"text": str, "id": nat}
            {"op": "order_key", "env": ENV, "hint": HINT}          -> KEY of the normal form
+           {"op": "generic_info", "genv": GENV, "hint": HINT}     -> {"type_vars": [id], "tvp": [id], "generic": bool,
+                                                                      "bare": bool, "parametrized": bool, "cls": str}
+  GENV  = {"builtin": [id], "opaque": [id], "tuple_in_table": bool, "type_in_table": bool}
   ATOM  = {"id": nat, "s": str}
   ENV   = {"none": [str, nat], "any": …, "union": …, "literal": …, "annotated": …, "tuple": …, "type": …, "ellipsis": str}
 -/
@@ -108,8 +112,27 @@ partial def findBad (j : Json) : Option String :=
         | .error _ => none
   | _ => none
 
+def decGenEnv (j : Json) : Except String (GenEnv Atom) := do
+  let builtin ← (← fieldArr j "builtin").mapM asNat
+  let noPar ← (← fieldArr j "opaque").mapM asNat
+  return { builtin := fun a => builtin.contains a.id, noParams := fun a => noPar.contains a.id,
+           tupleInTable := ← fieldBool j "tuple_in_table", typeInTable := ← fieldBool j "type_in_table" }
+
+def genericInfo (E : GenEnv Atom) (h : Hint Atom) : Json :=
+  Json.mkObj [
+    ("type_vars", listJ ((getTypeVars E h).map fun a => natJ a.id)),
+    ("tvp", listJ ((typeVarsOfParametrized E h).map fun a => natJ a.id)),
+    ("generic", Json.bool (isGeneric E h)),
+    ("bare", Json.bool (isBareGeneric E h)),
+    ("parametrized", Json.bool (isParametrized E h)),
+    ("cls", Json.str (reprStr (objFacts E h).cls))]
+
 def handle : Protocol.Handler := fun j => do
   let op ← fieldStr j "op"
+  if op == "generic_info" then
+    let E ← decGenEnv (← field j "genv")
+    let h ← decHint (← field j "hint")
+    return genericInfo E h
   let W ← decEnv (← field j "env")
   match op with
   | "normalize" =>
